@@ -3,6 +3,7 @@ SPECIFICATION Spec
 CONSTANTS
   MaxLua = 1
   AmountSigns <- Signs3
+  Direct = FALSE
   ForkVersions <- Fork45
 VIEW view
 CONSTRAINT Bounded
